@@ -94,17 +94,17 @@ theorem step_other (hd : d.dig ≠ 0) (found : Bool) (x : Desc) (hx : x.dig ≠ 
   unfold rmMainStep; simp [hx, hd]
 
 theorem step_drop (hd : d.dig ≠ 0) (ht : t ≠ 0) (x : Desc) (hx : x.dig = d.dig)
-    (h : x.ann.isNil = true ∨ x.ann.tag = t) : rmMainStep d t subj true x = (true, Act.drop) := by
+    (h : x.ann.len = 0 ∨ x.ann.tag = t) : rmMainStep d t subj true x = (true, Act.drop) := by
   unfold rmMainStep; simp [hx, hd, ht, h]
 
 theorem step_set (hd : d.dig ≠ 0) (ht : t ≠ 0) (found : Bool) (x : Desc) (hx : x.dig = d.dig)
-    (h1 : ¬ (found = true ∧ (x.ann.isNil = true ∨ x.ann.tag = t))) (h2 : ¬ x.ann.isNil = true ∧ x.ann.tag = t) :
+    (h1 : ¬ (found = true ∧ (x.ann.len = 0 ∨ x.ann.tag = t))) (h2 : ¬ x.ann.isNil = true ∧ x.ann.tag = t) :
     rmMainStep d t subj found x = (true, Act.set { x with ann := { x.ann with tag := 0 } }) := by
   unfold rmMainStep
   rw [if_pos ⟨hd, hx⟩, if_pos ht, if_neg h1, if_pos h2]
 
 theorem step_keep (hd : d.dig ≠ 0) (ht : t ≠ 0) (found : Bool) (x : Desc) (hx : x.dig = d.dig)
-    (h1 : ¬ (found = true ∧ (x.ann.isNil = true ∨ x.ann.tag = t))) (h2 : ¬ (¬ x.ann.isNil = true ∧ x.ann.tag = t)) :
+    (h1 : ¬ (found = true ∧ (x.ann.len = 0 ∨ x.ann.tag = t))) (h2 : ¬ (¬ x.ann.isNil = true ∧ x.ann.tag = t)) :
     rmMainStep d t subj found x = (true, Act.keep) := by
   unfold rmMainStep
   rw [if_pos ⟨hd, hx⟩, if_pos ht, if_neg h1, if_neg h2]
@@ -119,7 +119,7 @@ theorem revSpec_tag_gone (hd : d.dig ≠ 0) (ht : t ≠ 0) :
   | cons x xs ih =>
     intro found e he
     by_cases hx : x.dig = d.dig
-    · by_cases h1 : found = true ∧ (x.ann.isNil = true ∨ x.ann.tag = t)
+    · by_cases h1 : found = true ∧ (x.ann.len = 0 ∨ x.ann.tag = t)
       · obtain ⟨hf, h1'⟩ := h1
         subst hf
         rw [revSpec_cons_drop _ xs (step_drop d t subj hd ht x hx h1')] at he
@@ -152,7 +152,7 @@ theorem revSpec_tag_frame (hd : d.dig ≠ 0) (ht : t ≠ 0) :
         rcases List.mem_cons.mp he with h | h
         · rw [h] at hne; exact absurd hx hne
         · exact h
-      by_cases h1 : found = true ∧ (x.ann.isNil = true ∨ x.ann.tag = t)
+      by_cases h1 : found = true ∧ (x.ann.len = 0 ∨ x.ann.tag = t)
       · obtain ⟨hf, h1'⟩ := h1
         subst hf
         rw [revSpec_cons_drop _ xs (step_drop d t subj hd ht x hx h1')]
@@ -176,7 +176,7 @@ theorem revSpec_tag_keeps (hd : d.dig ≠ 0) (ht : t ≠ 0) :
   | cons x xs ih =>
     intro hex
     by_cases hx : x.dig = d.dig
-    · have h1 : ¬ (false = true ∧ (x.ann.isNil = true ∨ x.ann.tag = t)) := by simp
+    · have h1 : ¬ (false = true ∧ (x.ann.len = 0 ∨ x.ann.tag = t)) := by simp
       by_cases h2 : ¬ x.ann.isNil = true ∧ x.ann.tag = t
       · rw [revSpec_cons_set _ xs (step_set d t subj hd ht false x hx h1 h2)]
         exact ⟨_, List.mem_cons_self, hx⟩
